@@ -145,6 +145,34 @@ Theorem C19_early_release_refuted : exists s, inv s /\ In 1 (holders s) /\
 Proof. exact early_release_refuted. Qed.
 Print Assumptions C19_early_release_refuted.
 
+(* ---- holders and openers of different users ----
+   kill(pid, 0) answers EPERM for a process of another user: it exists. Liveness is existence, so the protocol above is
+   the protocol for any assignment of users to processes ... *)
+Theorem C19_liveness_is_existence own s p : open_u Exists own s p = open_atomic s p.
+Proof. exact (open_u_exists own s p). Qed.
+Print Assumptions C19_liveness_is_existence.
+(* ... a live holder is protected from everybody: the open is refused, names it and changes nothing ... *)
+Theorem C19_other_user_refused own s p q : lockf s = Some (LPid q) -> mem q (dead s) = false -> open_u Exists own s p = (s, Refused q).
+Proof. exact (other_user_refused own s p q). Qed.
+Print Assumptions C19_other_user_refused.
+(* ... and the lock a dead holder left behind blocks nobody *)
+Theorem C19_other_user_stale own s p q : inv s -> lockf s = Some (LPid q) -> mem q (dead s) = true ->
+  snd (open_u Exists own s p) = Granted /\ lockf (fst (open_u Exists own s p)) = Some (LPid p) /\ In p (holders (fst (open_u Exists own s p))).
+Proof. exact (other_user_stale own s p q). Qed.
+Print Assumptions C19_other_user_stale.
+(* reading "alive" as "I can signal it" (`Signal(0) == nil`): an unprivileged process is admitted next to root's live holder *)
+Theorem C19_signalable_refuted : exists own s, inv s /\ In 1 (holders s) /\ lockf s = Some (LPid 1) /\ mem 1 (dead s) = false /\
+  own 2 <> 0 /\ own 2 <> own 1 /\
+  kill0 own s 2 1 = PNotPermitted /\
+  snd (open_u Signalable own s 2) = Granted /\ lockf (fst (open_u Signalable own s 2)) = Some (LPid 2) /\
+  holders (fst (open_u Signalable own s 2)) = [2; 1] /\ dead (fst (open_u Signalable own s 2)) = [].
+Proof. exact signalable_refuted. Qed.
+Print Assumptions C19_signalable_refuted.
+(* and only schedules with two users can tell: an opener who is root, or of the same user as everybody, sees no difference *)
+Theorem C19_signalable_blind own s p : (forall q, own p = 0 \/ own p = own q) -> open_u Signalable own s p = open_atomic s p.
+Proof. exact (signalable_blind own s p). Qed.
+Print Assumptions C19_signalable_blind.
+
 (* ---- the hypotheses are satisfiable ---- *)
 (* a session: 1 opens, 2 is refused, 1 is killed, 3 cleans the stale lock and holds, 3's command fails and releases, 4 crashes
    inside its open before creating the file, 5 opens *)
